@@ -26,8 +26,11 @@ import (
 	"github.com/DrmagicE/gmqtt"
 	"github.com/DrmagicE/gmqtt/persistence/queue"
 	"github.com/DrmagicE/gmqtt/persistence/queue/mem"
+	redisqueue "github.com/DrmagicE/gmqtt/persistence/queue/redis"
 	"github.com/DrmagicE/gmqtt/pkg/packets"
+	redigo "github.com/gomodule/redigo/redis"
 
+	"verifharness/resp"
 	"verifharness/tc"
 )
 
@@ -92,6 +95,8 @@ type Trans struct {
 // ---------------------------------------------------------------- configuration
 
 var (
+	target    = flag.String("target", "mem", "mem | redis (persistence/queue/redis over the in-process RESP fake)")
+	reinit    = flag.String("reinit", "new", "redis: Init is called on a `new` Queue object over the same key (restart / new connection) or on the `same` object")
 	maxQ      = flag.Int("max", 2, "MaxQueuedMsg")
 	ieMode    = flag.String("ie", "off", "inflight expiry: off | instant | never")
 	probeN    = flag.Int("proben", 8, "maxSize of the probe's ReadInflight")
@@ -202,25 +207,78 @@ type got struct {
 	blocked bool
 }
 
-type real struct {
-	q   *mem.Queue
-	rec *recorder
-	wd  time.Duration
+// env is the back-end a redis queue talks to: one RESP fake + connection pool per replaying goroutine
+type env struct {
+	srv  *resp.Server
+	pool *redigo.Pool
 }
 
-// newReal = mem.New + Init(clean), the way the broker creates a session queue.  slow reports that the watchdog fired.
+var (
+	envs    chan *env
+	nextCID int64
+)
+
+func newEnv() (*env, error) {
+	srv, err := resp.NewServer()
+	if err != nil {
+		return nil, err
+	}
+	addr := srv.Addr()
+	return &env{srv: srv, pool: &redigo.Pool{MaxIdle: 4, Dial: func() (redigo.Conn, error) { return redigo.Dial("tcp", addr) }}}, nil
+}
+
+type real struct {
+	q     queue.Store
+	rec   *recorder
+	wd    time.Duration
+	env   *env
+	cid   string
+	fresh func() (queue.Store, error) // a new Store object over the same backing data
+}
+
+func (r *real) release() {
+	if r.q != nil {
+		r.q.Close()
+	}
+	if r.env != nil {
+		if r.q != nil {
+			r.q.Clean() // DEL the key: the fake is reused by later transitions
+		}
+		envs <- r.env
+		r.env = nil
+	}
+}
+
+// newReal = New + Init(clean), the way the broker creates a session queue.  slow reports that the watchdog fired.
 func newReal(wd time.Duration) (r *real, slow bool, err error) {
 	rec := &recorder{}
-	q, err := mem.New(mem.Options{MaxQueuedMsg: *maxQ, InflightExpiry: ieDuration(), ClientID: "c", DefaultNotifier: rec})
+	r = &real{rec: rec, wd: wd}
+	switch *target {
+	case "mem":
+		r.fresh = func() (queue.Store, error) {
+			return mem.New(mem.Options{MaxQueuedMsg: *maxQ, InflightExpiry: ieDuration(), ClientID: "c", DefaultNotifier: rec})
+		}
+	case "redis":
+		r.env = <-envs
+		r.cid = "c" + strconv.FormatInt(atomic.AddInt64(&nextCID, 1), 10)
+		pool, cid := r.env.pool, r.cid
+		r.fresh = func() (queue.Store, error) {
+			return redisqueue.New(redisqueue.Options{MaxQueuedMsg: *maxQ, InflightExpiry: ieDuration(), ClientID: cid, Pool: pool, DefaultNotifier: rec})
+		}
+	}
+	q, err := r.fresh()
 	if err != nil {
+		r.release()
 		return nil, false, err
 	}
-	r = &real{q: q, rec: rec, wd: wd}
+	r.q = q
 	g := r.call(func() ([]*queue.Elem, string) { return nil, errRes(q.Init(r.initOpts(true))) })
 	if g.blocked {
+		r.release()
 		return nil, true, nil
 	}
 	if g.panicv != "" || g.res != "ok" {
+		r.release()
 		return nil, false, fmt.Errorf("New+Init(clean) failed: %+v", g)
 	}
 	return r, false, nil
@@ -339,6 +397,14 @@ func (r *real) apply(op *Op) got {
 			return nil, strconv.FormatBool(ok)
 		})
 	case "init":
+		if *target == "redis" && *reinit == "new" {
+			// a new connection after a restart: a new Queue object over the same key
+			nq, err := r.fresh()
+			if err != nil {
+				return got{res: "err:" + err.Error()}
+			}
+			r.q, q = nq, nq
+		}
 		return r.call(func() ([]*queue.Elem, string) { return nil, errRes(q.Init(r.initOpts(op.Clean))) })
 	case "close":
 		return r.call(func() ([]*queue.Elem, string) { return nil, errRes(q.Close()) })
@@ -619,7 +685,7 @@ func run(t *Trans, wd time.Duration) (o outcome) {
 		o.diffs = append(o.diffs, diff{"harness:new", err.Error(), true})
 		return
 	}
-	defer r.q.Close()
+	defer r.release()
 	note := func(op *Op, g *got) {
 		if *verbose {
 			o.trace = append(o.trace, fmt.Sprintf("%s -> res=%s ret=%s drops=%s dQ=%+d dI=%+d panic=%q blocked=%v", describe(op), g.res, fmtRet(g.ret), fmtDropsGot(g.drops), g.dQ, g.dI, g.panicv, g.blocked))
@@ -796,10 +862,30 @@ func main() {
 		fmt.Fprintln(os.Stderr, "unknown -ie", *ieMode)
 		os.Exit(2)
 	}
+	switch *target {
+	case "mem":
+	case "redis":
+		if *workers <= 0 {
+			*workers = 8
+		}
+		// a confirming re-execution takes a second env while the first is still held by nobody: one spare suffices
+		envs = make(chan *env, *workers+1)
+		for i := 0; i < *workers+1; i++ {
+			e, err := newEnv()
+			if err != nil {
+				fmt.Fprintln(os.Stderr, "cannot start the RESP fake:", err)
+				os.Exit(2)
+			}
+			envs <- e
+		}
+	default:
+		fmt.Fprintln(os.Stderr, "unknown -target", *target)
+		os.Exit(2)
+	}
 	if err := tc.Each(os.Stdin, *workers, *raw, nil, one); err != nil {
 		fmt.Fprintln(os.Stderr, err)
 		os.Exit(2)
 	}
 	rep.Summary(map[string]interface{}{"tainted_prefix": atomic.LoadInt64(&nTainted), "watchdog_retries": atomic.LoadInt64(&nAbsenceRetry),
-		"timing_unconfirmed": atomic.LoadInt64(&nUnconfirmed), "max": *maxQ, "ie": *ieMode})
+		"timing_unconfirmed": atomic.LoadInt64(&nUnconfirmed), "max": *maxQ, "ie": *ieMode, "target": *target, "reinit": *reinit})
 }
